@@ -1,7 +1,8 @@
 import LasModel.Props.C14
 import LasModel.Props.C14File
 import LasModel.Props.C14Append
-open LasModel.Props.C14 LasModel.Props.C14File LasModel.Props.C14Append
+import LasModel.Props.C14Sel
+open LasModel.Props.C14 LasModel.Props.C14File LasModel.Props.C14Append LasModel.Props.C14Sel
 #print axioms C14_decision_open
 #print axioms C14_decision_write
 #print axioms C14_bit
@@ -17,3 +18,17 @@ open LasModel.Props.C14 LasModel.Props.C14File LasModel.Props.C14Append
 #print axioms stub_appendLaws
 #print axioms readFileC_form
 #print axioms C14_append_roundtrip
+#print axioms sel_flags
+#print axioms sel_all_base
+#print axioms sel_skip_decompress
+#print axioms sel_lazrs_map
+#print axioms sel_laszip_map
+#print axioms toBackend_lazrs
+#print axioms toBackend_laszip
+#print axioms selection_faithful
+#print axioms C14_selection_lazrs
+#print axioms C14_selection_laszip
+#print axioms stub_disjoint
+#print axioms laszip_disjoint
+#print axioms stub_values
+#print axioms stub_all
